@@ -339,6 +339,8 @@ func exec(kind string, in []string) []string {
 			"live=" + h.live, fmt.Sprintf("retries=%d", h.retries), "reissued=" + jn(h.reissued, ",")}
 	case "srv":
 		return srvCase(cap, in[2], in[3])
+	case "big":
+		return bigCase(cap, vh.AtoI(in[2]), vh.AtoI(in[3]), vh.AtoI(in[4]))
 	case "conc":
 		return concCase(cap, vh.AtoI(in[2]), vh.AtoI(in[3]), vh.AtoI(in[4]))
 	case "reissue":
